@@ -51,6 +51,8 @@ pub trait Fs {
     fn seek_end(&self, f: RawFile, back: u64, fl: u8) -> Result<Option<u64>, LibErr>;
     fn length(&self, f: RawFile, fl: u8) -> Result<u32, LibErr>;
     fn offset(&self, f: RawFile, fl: u8) -> Result<u32, LibErr>;
+    /// embedded-io `Seek::stream_position` (a provided method of the trait)
+    fn stream_pos(&self, f: RawFile) -> Result<u64, LibErr>;
     fn eof(&self, f: RawFile, fl: u8) -> Result<bool, LibErr>;
     fn delete(&self, d: RawDirectory, name: &Name, fl: u8) -> Result<(), LibErr>;
     fn make_dir(&self, d: RawDirectory, name: &Name, fl: u8) -> Result<(), LibErr>;
@@ -303,6 +305,12 @@ where
             let _ = file.to_raw_file();
             Ok(r)
         }
+    }
+    fn stream_pos(&self, f: RawFile) -> Result<u64, LibErr> {
+        let mut file = f.to_file(self);
+        let r = embedded_io::Seek::stream_position(&mut file);
+        let _ = file.to_raw_file();
+        r
     }
     fn eof(&self, f: RawFile, fl: u8) -> Result<bool, LibErr> {
         if fl == 0 {
